@@ -235,7 +235,7 @@ class Gen:
         def rec(k):
             ts = T0 + r.choice([-3, -2, -1, 0, 1, 2, 3]) * 1000
             ttl = r.choice([0, 0, 0, nowms + 5000, nowms - 5000])
-            return "%s:%s:%d:%d" % (k, hx(b"v%d" % r.randrange(1000)), ttl, ts)
+            return "%s:%s:%d:%d" % (k, hx(b"v%d" % r.randrange(1000)) if r.random() > 0.1 else hx(b""), ttl, ts)      # the empty value is a value
 
         for _ in range(nops or 40):
             k = r.choice(keys)
